@@ -1,12 +1,13 @@
 //! Rule-manager cases (C10, C11 identity part, C12 manager part).
 //! case: tag family npool { id res key }*  nres  ops...      family: 0 flow, 1 hotspot, 2 breaker, 3 isolation
-//!       a rule with key k is valid iff k % 5 != 0 and has statistic class k % 2
+//!       a rule with key k is valid iff k % 5 != 0 and has statistic class k % 2; family 4 = system (ops L P C G only;
+//!       resources 1..3 = metric types)
 //! ops : L n ix* | R res n ix* | P ix | C | K res | G | Q res | E res | T res
 //!       T res: identity of the controllers / breakers of the resource: (rule id, object token, statistic token)*
 //! out : per op a length-prefixed list: return code (1 true, 0 false, 2 Err, 9 unit, -1 panic) or rule ids
 use crate::util::*;
 use crate::world::num_id;
-use sentinel_core::{circuitbreaker as cb, flow, hotspot, isolation};
+use sentinel_core::{circuitbreaker as cb, flow, hotspot, isolation, system};
 use std::sync::Arc;
 
 #[derive(Clone)]
@@ -68,6 +69,21 @@ fn iso_rule(tag: &str, p: &PR) -> Arc<isolation::Rule> {
     })
 }
 
+/// family 4: resources 1..3 are the metric types avg rt / concurrency / inbound qps
+fn sys_rule(_tag: &str, p: &PR) -> Arc<system::Rule> {
+    let valid = p.key % 5 != 0;
+    Arc::new(system::Rule {
+        id: format!("M{}", p.id),
+        metric_type: match p.res {
+            1 => system::MetricType::AvgRT,
+            2 => system::MetricType::Concurrency,
+            _ => system::MetricType::InboundQPS,
+        },
+        threshold: if valid { 100000.0 + p.key as f64 } else { -1.0 },
+        ..Default::default()
+    })
+}
+
 fn rb(b: bool) -> i128 {
     b as i128
 }
@@ -107,8 +123,12 @@ pub fn run_case(t: &mut Toks) -> Vec<i128> {
                     0 => vec![rb(flow::load_rules(ps.iter().map(|p| flow_rule(&tag, p)).collect()))],
                     1 => vec![rb(hotspot::load_rules(ps.iter().map(|p| hot_rule(&tag, p)).collect()))],
                     2 => vec![rb(cb::load_rules(ps.iter().map(|p| cb_rule(&tag, p)).collect()))],
-                    _ => {
+                    3 => {
                         isolation::load_rules(ps.iter().map(|p| iso_rule(&tag, p)).collect());
+                        vec![9]
+                    }
+                    _ => {
+                        system::load_rules(ps.iter().map(|p| sys_rule(&tag, p)).collect());
                         vec![9]
                     }
                 })
@@ -130,7 +150,8 @@ pub fn run_case(t: &mut Toks) -> Vec<i128> {
                     0 => vec![rb(flow::append_rule(flow_rule(&tag, &p)))],
                     1 => vec![rb(hotspot::append_rule(hot_rule(&tag, &p)))],
                     2 => vec![rb(cb::append_rule(cb_rule(&tag, &p)))],
-                    _ => vec![rb(isolation::append_rule(iso_rule(&tag, &p)))],
+                    3 => vec![rb(isolation::append_rule(iso_rule(&tag, &p)))],
+                    _ => vec![rb(system::append_rule(sys_rule(&tag, &p)))],
                 })
             }
             "C" => guarded(|| {
@@ -138,7 +159,8 @@ pub fn run_case(t: &mut Toks) -> Vec<i128> {
                     0 => flow::clear_rules(),
                     1 => hotspot::clear_rules(),
                     2 => cb::clear_rules(),
-                    _ => isolation::clear_rules(),
+                    3 => isolation::clear_rules(),
+                    _ => system::clear_rules(),
                 };
                 vec![9]
             }),
@@ -158,7 +180,8 @@ pub fn run_case(t: &mut Toks) -> Vec<i128> {
                 0 => flow::get_rules().iter().map(|r| num_id(&r.id)).collect(),
                 1 => hotspot::get_rules().iter().map(|r| num_id(&r.id)).collect(),
                 2 => cb::get_rules().iter().map(|r| num_id(&r.id)).collect(),
-                _ => isolation::get_rules().iter().map(|r| num_id(&r.id)).collect(),
+                3 => isolation::get_rules().iter().map(|r| num_id(&r.id)).collect(),
+                _ => system::get_rules().iter().map(|r| num_id(&r.id)).collect(),
             }),
             "Q" => {
                 let nm = name(&tag, t.u64());
@@ -220,7 +243,8 @@ pub fn run_case(t: &mut Toks) -> Vec<i128> {
         0 => flow::clear_rules(),
         1 => hotspot::clear_rules(),
         2 => cb::clear_rules(),
-        _ => isolation::clear_rules(),
+        3 => isolation::clear_rules(),
+        _ => system::clear_rules(),
     });
     out
 }
